@@ -279,6 +279,32 @@ func c10(c *Ctx) {
 			k, ok := v.(*ssa.Const)
 			return ok && k.Value != nil && k.Value.String() == "true"
 		}) && lit["test"] != nil
+		// universally: whenever the pattern has the regex: prefix the regex field is the compiled pattern, otherwise nil
+		okRegexField, whyRF := true, ""
+		for _, vc := range valueCases(lit["regex"], nil) {
+			isRegex, known := false, false
+			for _, cd := range vc.Conds {
+				f := canonOf(cd)
+				if f.Op == token.ILLEGAL {
+					if _, ok := prefixTest(f.V, "regex:", false); ok {
+						isRegex, known = f.True, true
+					}
+				}
+			}
+			cl, isCompile := vc.V.(*ssa.Call)
+			isCompile = isCompile && isCall(cl, "regexp.MustCompile", "regexp.Compile")
+			switch {
+			case known && isRegex && !isCompile:
+				okRegexField, whyRF = false, "a pattern with the regex: prefix can end up with regex = "+pathOf(vc.V)
+			case known && !isRegex && !isNilConst(vc.V):
+				okRegexField, whyRF = false, "a pattern without the regex: prefix gets regex = "+pathOf(vc.V)
+			case !known && !isCompile && !isNilConst(vc.V):
+				okRegexField, whyRF = false, "regex = "+pathOf(vc.V)+" under conditions that do not mention the regex: prefix"
+			case !known && isCompile:
+				// the compile call itself is checked to be under the prefix test (regex-prefix above)
+			}
+		}
+		r.Check("NewStringMatch:regex-field-iff-prefix", okRegexField, ns.Pos(), "regex is the compiled remainder exactly when the pattern starts with regex: "+whyRF)
 		r.Check("NewStringMatch:fields", okFields, ns.Pos(), fmt.Sprintf("prefixMatch<-%s regex<-%s test<-%s", pathOf(lit["prefixMatch"]), pathOf(lit["regex"]), pathOf(lit["test"])))
 		// MatchAny / MatchAnyMultiple: true iff some element matches, false for empty
 		for _, nm := range []string{"StringMatchList.MatchAny", "StringMatchList.MatchAnyMultiple"} {
